@@ -1107,6 +1107,8 @@ class Collection(object):
         if spec is None:
             spec = {}
         validate_is_mapping('filter', spec)
+        if session:
+            raise_not_implemented('session', 'Mongomock does not handle sessions yet')
         for kwarg, value in kwargs.items():
             if value:
                 raise OperationFailure("Unrecognized field '%s'" % kwarg)
